@@ -102,10 +102,10 @@ impl<'a> TXT<'a> {
             Err(err) => return Err(crate::SimpleDnsError::InvalidUtf8String(err)),
         };
 
-        let parts = full_string.split(|c| (c as u8) == b';');
+        let parts = full_string.split(|c| c == ';');
 
         for part in parts {
-            let key_value = part.splitn(2, |c| (c as u8) == b'=').collect::<Vec<&str>>();
+            let key_value = part.splitn(2, |c| c == '=').collect::<Vec<&str>>();
 
             let key = key_value[0];
 
